@@ -71,6 +71,115 @@ Definition tr_analysisPath (g_path : gstr) : option (list gstr) :=
     Some g_ret
   end)) else None)) else None).
 
+(* elem.isNode *)
+Definition tr_isNode (g_e : gchild) : option bool :=
+  Some (Z.eqb (gc_kind g_e) k_conf_Node).
+
+(* elem.isLeaf *)
+Definition tr_isLeaf (g_e : gchild) : option bool :=
+  Some (Z.eqb (gc_kind g_e) k_conf_Leaf).
+
+(* elem.setValue *)
+Definition tr_setValue (g_e : gelem) (g_value : gstr) : option gelem :=
+  let g_e := ge_set_value g_e g_value in
+  Some g_e.
+
+(* elem.addChild *)
+Definition tr_addChild (g_e : gelem) (g_name : gstr) (g_child : gchild) : option gelem :=
+  let g_e := ge_set_children g_e (gs_map_set (ge_children g_e) g_name g_child) in
+  Some g_e.
+
+(* elem.addLine *)
+Definition tr_addLine (g_e : gelem) (g_line : gstr) : option gelem :=
+  let g_e := ge_set_line g_e ((ge_line g_e) ++ [g_line]) in
+  Some g_e.
+
+(* elem.findChild *)
+Definition tr_findChild (g_e : gelem) (g_name : gstr) : option (option gchild * bool) :=
+  let g_ret := (None : option gchild) in let g_ok := false in let '(g_ret, g_ok) := gs_map_get2 (ge_children g_e) g_name in
+  Some (g_ret, g_ok).
+
+(* newElem *)
+Definition tr_newElem (g_kind : Z) (g_name : gstr) : option gelem :=
+  Some {| ge_kind := g_kind; ge_name := g_name; ge_value := ([] : gstr); ge_children := []; ge_line := [] |}.
+
+(* elem.getDomain; (g_node0, g_err0) = e.getElem(pathVec) *)
+Definition tr_getDomain (g_path : gstr) (g_node0 : gelem) (g_err0 : bool) : option (list gstr * bool) :=
+  match tr_analysisPath g_path with None => None | Some g_pathVec =>
+  let g_domain := ([] : list gstr) in
+  let '(g_targetNode, g_err) := (g_node0, g_err0) in
+  if (negb (Bool.eqb g_err false))
+  then (Some (g_domain, g_err))
+  else (match fold_left (fun g_st g_child => match g_st with None => None | Some g_domain =>
+      (if ((gs_is_some (tr_isNode g_child))) then (if (gs_get false (tr_isNode g_child))
+      then (let g_domain := (g_domain ++ [(gc_name g_child)]) in
+        Some g_domain)
+      else (Some g_domain)) else None)
+    end) (map snd (ge_children g_targetNode)) (Some g_domain) with
+  | None => None
+  | Some g_domain =>
+    Some (g_domain, false)
+  end)
+  end.
+
+(* elem.getDomainKey; (g_node0, g_err0) = e.getElem(pathVec) *)
+Definition tr_getDomainKey (g_path : gstr) (g_node0 : gelem) (g_err0 : bool) : option (list gstr * bool) :=
+  match tr_analysisPath g_path with None => None | Some g_pathVec =>
+  let g_domainKey := ([] : list gstr) in
+  let '(g_targetNode, g_err) := (g_node0, g_err0) in
+  if (negb (Bool.eqb g_err false))
+  then (Some (g_domainKey, g_err))
+  else (match fold_left (fun g_st g_child => match g_st with None => None | Some g_domainKey =>
+      (if ((gs_is_some (tr_isLeaf g_child))) then (if (gs_get false (tr_isLeaf g_child))
+      then (let g_domainKey := (g_domainKey ++ [(gc_name g_child)]) in
+        Some g_domainKey)
+      else (Some g_domainKey)) else None)
+    end) (map snd (ge_children g_targetNode)) (Some g_domainKey) with
+  | None => None
+  | Some g_domainKey =>
+    Some (g_domainKey, false)
+  end)
+  end.
+
+(* elem.getDomainLine; (g_node0, g_err0) = e.getElem(pathVec) *)
+Definition tr_getDomainLine (g_path : gstr) (g_node0 : gelem) (g_err0 : bool) : option (list gstr * bool) :=
+  match tr_analysisPath g_path with None => None | Some g_pathVec =>
+  let g_domainLine := ([] : list gstr) in
+  let '(g_targetNode, g_err) := (g_node0, g_err0) in
+  if (negb (Bool.eqb g_err false))
+  then (Some (g_domainLine, g_err))
+  else (let g_domainLine := (g_domainLine ++ (ge_line g_targetNode)) in
+  Some (g_domainLine, false))
+  end.
+
+(* elem.getMap; (g_node0, g_err0) = e.getElem(pathVec) *)
+Definition tr_getMap (g_path : gstr) (g_node0 : gelem) (g_err0 : bool) : option (list (gstr * gstr) * bool) :=
+  match tr_analysisPath g_path with None => None | Some g_pathVec =>
+  let g_kvMap := ([] : list (gstr * gstr)) in
+  let '(g_targetNode, g_err) := (g_node0, g_err0) in
+  if (negb (Bool.eqb g_err false))
+  then (Some (g_kvMap, g_err))
+  else (match fold_left (fun g_st g_child => match g_st with None => None | Some g_kvMap =>
+      (if ((gs_is_some (tr_isLeaf g_child))) then (if (gs_get false (tr_isLeaf g_child))
+      then (let g_kvMap := gs_map_set g_kvMap (gc_name g_child) (gc_value g_child) in
+        Some g_kvMap)
+      else (Some g_kvMap)) else None)
+    end) (map snd (ge_children g_targetNode)) (Some g_kvMap) with
+  | None => None
+  | Some g_kvMap =>
+    Some (g_kvMap, false)
+  end)
+  end.
+
+(* elem.getValue; (g_node0, g_err0) = e.getElem(pathVec) *)
+Definition tr_getValue (g_path : gstr) (g_node0 : gelem) (g_err0 : bool) : option (gstr * bool) :=
+  match tr_analysisPath g_path with None => None | Some g_pathVec =>
+  let '(g_targetNode, g_err) := (g_node0, g_err0) in
+  if (negb (Bool.eqb g_err false))
+  then (Some (([] : gstr), g_err))
+  else (Some ((ge_value g_targetNode), false))
+  end.
+
 (* Conf.GetStringWithDef; (g_value0, g_err0) = c.root.getValue(path) *)
 Definition tr_GetStringWithDef (g_value0 : gstr) (g_err0 : bool) (g_defVal : gstr) : option gstr :=
   let '(g_value, g_err) := (g_value0, g_err0) in
